@@ -369,6 +369,26 @@ def gen_c20(ctx):
         ops += [{"op": "uniq", "seed": n, "even_empty": True}, {"op": "verify", "sweep": False}, {"op": "uniq", "seed": n + 1, "even_empty": True}]
         plans.append({"id": i, "focus": "C20", "build": "san", "universe": u, "faults": {}, "ops": ops})
         i += 1
+    # a module definition registered twice: before the first query, and again after it has been loaded
+    for n in range(10 if not thorough else 100):
+        rng = run_rng(ctx.seed, NAME + "/c20again", n)
+        k = rng.choice([1, 2, 3])
+        u = {"seed": rng.next(), "k": k, "size": rng.choice([2, 4]), "shared": rng.below(2), "minors": [3] * k, "alt": False}
+        ops = []
+        for li in rng.shuffle(list(range(k))):
+            ops.append({"op": "reg_mod", "lib": li, "range": rng.chance(2, 3), "ident": "match", "uniq": rng.choice([None, 2]), "fptrs": rng.choice([None, 0])})
+            if rng.chance(1, 2):
+                ops.append({"op": "reg_again", "lib": li})
+            if rng.chance(1, 3):
+                ops.append({"op": "count", "fn": "interrogate_number_of_functions"})
+                ops.append({"op": "reg_again", "lib": li})
+        ops += [{"op": "verify", "sweep": n % 3 == 0}, {"op": "reg_again", "lib": rng.below(k)}, {"op": "verify", "sweep": False}]
+        plans.append({"id": i, "focus": "C20", "build": "san", "universe": u, "faults": {}, "ops": ops})
+        i += 1
+    for name in sorted(x for x in os.listdir(REAL_DIR) if x.endswith(".in") and os.path.exists(os.path.join(REAL_DIR, x + ".range"))):
+        plans.append({"id": i, "focus": "C20", "build": "san", "universe": {"real": [name]}, "faults": {},
+                      "ops": [{"op": "reg_mod", "lib": 0, "range": "generated", "ident": "match"}, {"op": "reg_again", "lib": 0}, {"op": "verify", "sweep": True}]})
+        i += 1
     # a database registered through the module definition its own code file compiles in (file identifier, index range)
     for name in sorted(x for x in os.listdir(REAL_DIR) if x.endswith(".in") and os.path.exists(os.path.join(REAL_DIR, x + ".range"))):
         plans.append({"id": i, "focus": "C20", "build": "san", "universe": {"real": [name]}, "faults": {},
